@@ -48,9 +48,10 @@ def fault(draw, tbl, sids):
     kind = draw(st.sampled_from(kinds))
     sid = draw(st.sampled_from(sids))
     if kind == "unknown_module":
-        entry = [draw(st.sampled_from(["nosuchmodule", "qartod2", "Argo"])), "gross_range_test", {"fail_span": [0, 1]}]
+        entry = [draw(st.sampled_from(["nosuchmodule", "qartod2", "Argo"])), "gross_range_test", draw(st.sampled_from([{"fail_span": [0, 1]}, None]))]
     elif kind == "unknown_test":
-        entry = [draw(st.sampled_from(["qartod", "argo", "axds"])), draw(st.sampled_from(["no_such_test", "spike_tests", "range_test"])), {"a": 1}]
+        entry = [draw(st.sampled_from(["qartod", "argo", "axds"])), draw(st.sampled_from(["no_such_test", "spike_tests", "range_test"])),
+                 draw(st.sampled_from([{"a": 1}, {"a": 1}, None, {}]))]
     elif kind == "bad_params":
         entry = draw(st.sampled_from([
             ["qartod", "gross_range_test", {"fail_span": [0, 10], "suspect_span": [-5, 5]}],
@@ -104,7 +105,9 @@ def fault_case(draw, tier="quick"):
         f["pos"] = draw(st.sampled_from([0, 0, 0, 1, 2, 3]))
         faults.append(f)
     return {"table": tbl, "contexts": ctxs, "faults": faults, "style": draw(st.sampled_from(["iso", "datetime"])),
-            "frontends": draw(st.lists(st.sampled_from(FRONTENDS), min_size=1, max_size=3, unique=True))}
+            "frontends": draw(st.lists(st.sampled_from(FRONTENDS), min_size=1, max_size=3, unique=True)),
+            # how the (faulty) configuration is written when it has a single window-less context
+            "layout": draw(st.sampled_from(["contexts", "contexts", "bare_streams", "single_context"]))}
 
 
 def with_faults(case):
@@ -138,12 +141,19 @@ def with_faults(case):
 AXES = ("data", "tinp", "zinp", "lat", "lon")
 
 
-def run_collect(fe, tbl, contexts, style, want_fields=False):
+def run_collect(fe, tbl, contexts, style, want_fields=False, layout="contexts"):
     """-> {(stream, module, test): [flags or None (masked)]}"""
     from ioos_qc.config import Config
     from ioos_qc.results import collect_results
     from ioos_qc.streams import NetcdfStream, NumpyStream, PandasStream, XarrayStream
     cfg = sg.config_obj(contexts, style)
+    if layout != "contexts" and len(contexts) == 1 and not contexts[0].get("window"):
+        only = cfg["contexts"][0]
+        all_null = all(kw is None for mods in only["streams"].values() for ts in mods.values() for kw in ts.values())
+        if layout == "single_context":
+            cfg = only
+        elif not all_null:  # (a bare mapping whose tests all lack parameters cannot be told from a module mapping)
+            cfg = only["streams"]
     axes = {}
     if "z" in tbl["axes"]:
         axes["z"] = sg.np_col(tbl["axes"]["z"])
@@ -189,7 +199,8 @@ def check_faults(case, rec):
     ctxs_f, faulty, before = with_faults(case)
     kinds = sorted({f["kind"] for f in case["faults"]})
     rec.note(before, [f"kind={k}" for k in kinds] + (["runtime_fault_before_healthy"] if before else []) +
-             [f"fe={f}" for f in case["frontends"]] + [f"contexts={len(case['contexts'])}"])
+             [f"fe={f}" for f in case["frontends"]] + [f"contexts={len(case['contexts'])}"] +
+             ([f"layout={case.get('layout')}"] if len(ctxs_f) == 1 and not ctxs_f[0].get("window") else []))
     healthy = [(ci, sid, e) for ci, c in enumerate(case["contexts"]) for sid, es in c["streams"].items() for e in es]
     # an injected entry is only a fault if it really cannot be executed on this data (e.g. density_inversion_test with
     # a non-numeric threshold still runs on a single-point window): decide that with an independent direct call
@@ -213,7 +224,7 @@ def check_faults(case, rec):
         site = {"pandas": "PandasStream", "numpy_dict": "NumpyStream(dict)", "xarray_coord": "XarrayStream", "netcdf": "NetcdfStream"}[fe]
         info = {"frontend": fe, "fault_kinds": kinds}
         try:
-            full, full_fields = run_collect(fe, tbl, ctxs_f, case["style"], want_fields=True)
+            full, full_fields = run_collect(fe, tbl, ctxs_f, case["style"], want_fields=True, layout=case.get("layout", "contexts"))
         except Exception as e:
             rec.fail(site, f"run with faulty entries raised {type(e).__name__}: {str(e)[:200]}", raised=True, exc=type(e).__name__, **info)
             continue
